@@ -141,9 +141,10 @@ func rprop(f func(ConstVector) (MagicScalar, error), x0 ConstVector, step_init f
         }
       }
     }
-    for {
+    for rejected := false;; {
       verifhook.Tick("rprop.backtrack")
       // update x
+      moved := false
       for i := 0; i < x1.Dim(); i++ {
         if gradient_new[i] != 0.0 {
           if gradient_new[i] > 0.0 {
@@ -155,6 +156,16 @@ func rprop(f func(ConstVector) (MagicScalar, error), x0 ConstVector, step_init f
         if math.IsNaN(x2.At(i).GetFloat64()) {
           return x2, fmt.Errorf("NaN value detected")
         }
+        if x2.Float64At(i) != x1.Float64At(i) {
+          moved = true
+        }
+      }
+      // trial points were rejected because the objective could not be
+      // evaluated there and the steps were reduced until x2 does not
+      // differ from x1 anymore: no valid point is left to try (accepting
+      // x2 = x1 would repeat the same search forever)
+      if rejected && !moved {
+        return x1, fmt.Errorf("no valid point found: step sizes fell below the resolution of x")
       }
       // evaluate objective function
       if err := x2.Variables(1); err != nil {
@@ -163,6 +174,9 @@ func rprop(f func(ConstVector) (MagicScalar, error), x0 ConstVector, step_init f
       s, err = f(x2)
       if err != nil || gradient_is_nan(s) ||
         (constraints.Value != nil && !constraints.Value(x2)) {
+        if err != nil || gradient_is_nan(s) {
+          rejected = true
+        }
         // if the updated is invalid reduce step size
         for i := 0; i < x1.Dim(); i++ {
           if gradient_new[i] != 0.0 {
